@@ -586,7 +586,10 @@ class ResultTypesGenerator:
         ):
             self._imports.append(
                 generate_import_from(
-                    [str_to_pascal_case(f) for f in self._fragments_used_as_mixins],
+                    [
+                        str_to_pascal_case(f)
+                        for f in sorted(self._fragments_used_as_mixins)
+                    ],
                     self.fragments_module_name,
                     1,
                 )
